@@ -29,7 +29,8 @@ mechanisms); round 3 `*-ext3-*` (asked for cooperating sites / multi-step sequen
 refactorings, one-token slips in indirect helpers); round 5 `*-ext5-*` (outside the anchor files, edges of the quantifier, over-reaching
 robustness changes); round 6 `*-ext6-*` (wrong member of a family, follow-ups to the repaired code, state that outlives a call or an
 iteration); round 7 `*-ext7-*` (a slightly wrong formula, recurrence or index expression; an interaction of two operations or another
-element type; what a source-reading tool is least likely to notice).  Mutants that stopped breaking their property when a `fix:` commit made the property robust against them are kept, with the
+element type; what a source-reading tool is least likely to notice); round 8 `*-ext8-*` (ten properties only: conditional
+"optimisations" written without `continue`, guards and clamps added for robustness, one-operand slips).  Mutants that stopped breaking their property when a `fix:` commit made the property robust against them are kept, with the
 reason, in `../seeded_retired/` and are not counted here.
 
 Each directory holds `patch.diff`, `demo.rs` (an integration test that fails with the change and passes without) and `meta.json` (what it
